@@ -193,7 +193,7 @@ def install(ctx):
 
 def run(ctx):
     thorough = ctx.tier == "thorough"
-    n = (60000 if thorough else 1600) // ctx.nshards
+    n = (480000 if thorough else 1600) // ctx.nshards
     for j in range(n):
         r = ctx.rng("c14", j)
         nev = int(r.choice([0, 1, 2, 7, 50 if j % 10 == 0 else 12]))
